@@ -418,6 +418,7 @@ func (c *collH) endBlock(t int64, names []string) string {
 	// received exactly what it had bonded - nobody signed anything in this block
 	received := map[int]sdk.Coins{}
 	owed := map[int]sdk.Coins{}
+	dissolvedIn := map[int]int64{}
 	for _, b := range before {
 		now := ck.GetCollectiveContributer(h.ctx, b.name, h.acc[b.who].String())
 		gone := ck.GetCollective(h.ctx, b.name).Name == ""
@@ -429,10 +430,31 @@ func (c *collH) endBlock(t int64, names []string) string {
 			continue
 		}
 		owed[b.who] = owed[b.who].Add(b.cc.Bonds...)
+		dissolvedIn[b.who]++
 		received[b.who] = bk.GetAllBalances(h.ctx, h.acc[b.who]).Sub(b.bal...)
 	}
 	for who, o := range owed {
 		if !received[who].IsEqual(o) {
+			// recorded finding portion-rounding (theorem portions_near): (1-d)·b and d·b are rounded separately, so a
+			// withdrawal returns b-1, b or b+1 of a denomination; one unit per dissolved collective is explained by it
+			within := true
+			tol := sdk.NewInt(dissolvedIn[who])
+			denoms := map[string]bool{}
+			for _, c := range o {
+				denoms[c.Denom] = true
+			}
+			for _, c := range received[who] {
+				denoms[c.Denom] = true
+			}
+			for d := range denoms {
+				if o.AmountOf(d).Sub(received[who].AmountOf(d)).Abs().GT(tol) {
+					within = false
+				}
+			}
+			if within {
+				h.r.Known("C18/collectives-withdraw/portion-rounding", fmt.Sprintf("%s: contributor %d had bonded %s in the dissolved collectives and received %s", line, who, o, received[who]))
+				continue
+			}
 			h.r.Fail("C18/coll-endblock/dissolved-without-returning-the-bonds", fmt.Sprintf("%s: contributor %d had bonded %s in the dissolved collectives and received %s", line, who, o, received[who]), []string{line})
 		}
 	}
